@@ -358,6 +358,13 @@ func (g *mpGenState) genEnum(fi int, scope string) (int, bool) {
 		}
 		b.Elems = append(b.Elems, mpRec1("rn", mpHexS("OLD_"+name), style))
 	}
+	// the position of `option allow_alias` inside the body is free: first, middle or last
+	if len(b.Elems) > 1 && b.Elems[0].K == "aa" {
+		aa := b.Elems[0]
+		rest := append([]mpRec{}, b.Elems[1:]...)
+		pos := g.r.Intn(len(rest) + 1)
+		b.Elems = append(append(append([]mpRec{}, rest[:pos]...), aa), rest[pos:]...)
+	}
 	g.types = append(g.types, &mpTypeInfo{fq: fq, kind: 'e', file: fi, closed: f.Syntax == "2" || f.Syntax == "n", first: first})
 	return idx, true
 }
@@ -1393,6 +1400,98 @@ func mpSynthFamily() []string {
 	return ops
 }
 
+// mpMsgSetFamily is the directed family for message-set messages: `option
+// message_set_wire_format` (true / false / absent) written first, in the middle or last in the
+// body, with `extensions … to max`, explicit ends around 2^29-1 and 2^31-2, `reserved … to max`,
+// extension fields with tags around both limits (message-typed, scalar, repeated), a plain field,
+// in proto2, edition 2023 and proto3. `max` must mean 2147483646 (exclusive end 2147483647) in a
+// message-set message and 536870911 otherwise, wherever the option stands.
+func mpMsgSetFamily() []string {
+	var ops []string
+	type ext struct {
+		name, label, ty, tag string
+	}
+	build := func(syn, msv, at string, ers, rrs [][2]string, x *ext, field bool) string {
+		lbl := "o"
+		if syn != "2" {
+			lbl = "-"
+		}
+		var stmts []mpRec
+		for _, e := range ers {
+			stmts = append(stmts, mpRec1("er", e[0], e[1]))
+		}
+		for _, r := range rrs {
+			stmts = append(stmts, mpRec1("rr", r[0], r[1]))
+		}
+		if field {
+			stmts = append(stmts, mpFldT(lbl, "int32", "fld", 3))
+		}
+		var elems []mpRec
+		if msv != "-" {
+			opt := mpRec1("ms", msv)
+			switch at {
+			case "first":
+				elems = append([]mpRec{opt}, stmts...)
+			case "last":
+				elems = append(append([]mpRec{}, stmts...), opt)
+			default:
+				mid := (len(stmts) + 1) / 2
+				elems = append(append(append([]mpRec{}, stmts[:mid]...), opt), stmts[mid:]...)
+			}
+		} else {
+			elems = stmts
+		}
+		file := &mpFile{Path: "t.proto", Syntax: syn, Pkg: "p", Top: []mpRec{mpRec1("c", "0"), mpRec1("c", "1")},
+			Msgs: []*mpBody{{Name: "S", Elems: elems}, {Name: "T"}}}
+		if x != nil {
+			l := x.label
+			if syn != "2" && l == "o" {
+				l = "-"
+			}
+			file.Top = append(file.Top, mpRec1("x", "S"), mpRec1("f", "x", l, x.ty, x.name, x.tag, "-", "-", "-"))
+		}
+		return (&mpWS{Note: "msgset:" + msv + ":" + at, Files: []*mpFile{file}}).op()
+	}
+	erVariants := [][][2]string{
+		{{"4", "max"}}, {{"4", "536870911"}}, {{"4", "536870912"}}, {{"4", "2147483646"}}, {{"4", "2147483647"}},
+		{{"4", "100"}, {"1000", "max"}},
+	}
+	rrVariants := [][][2]string{nil, {{"1", "2"}}, {{"1", "2"}, {"3", "-"}}}
+	exts := []*ext{nil, {"e", "o", "T", "536870912"}, {"e", "o", "T", "2147483646"}, {"e", "o", "int32", "5"}, {"e", "r", "T", "5"}, {"e", "o", "T", "536870911"}}
+	for _, at := range []string{"first", "mid", "last"} {
+		for _, msv := range []string{"t", "f", "-"} {
+			if msv == "-" && at != "first" {
+				continue
+			}
+			for _, er := range erVariants {
+				for _, rr := range rrVariants {
+					for _, x := range exts {
+						ops = append(ops, build("2", msv, at, er, rr, x, false))
+					}
+				}
+			}
+			// reserved ... to max / above FieldMax next to a bounded extension range
+			for _, rr := range [][][2]string{{{"200", "max"}}, {{"200", "536870912"}}, {{"200", "2147483646"}}, {{"200", "2147483647"}}} {
+				ops = append(ops, build("2", msv, at, [][2]string{{"4", "100"}}, rr, nil, false))
+				ops = append(ops, build("e", msv, at, [][2]string{{"4", "100"}}, rr, nil, false))
+			}
+			// no extension range at all; a plain field; other syntaxes
+			ops = append(ops, build("2", msv, at, nil, [][2]string{{"1", "max"}}, nil, false))
+			ops = append(ops, build("2", msv, at, [][2]string{{"4", "max"}}, nil, nil, true))
+			for _, syn := range []string{"e", "3"} {
+				for _, x := range []*ext{nil, {"e", "o", "T", "536870912"}} {
+					ops = append(ops, build(syn, msv, at, [][2]string{{"4", "max"}}, [][2]string{{"1", "2"}}, x, false))
+				}
+			}
+		}
+	}
+	// the option twice
+	f := &mpFile{Path: "t.proto", Syntax: "2", Pkg: "p", Top: []mpRec{mpRec1("c", "0")},
+		Msgs: []*mpBody{{Name: "S", Elems: []mpRec{mpRec1("ms", "t"), mpRec1("er", "4", "max"), mpRec1("ms", "t")}}}}
+	ops = append(ops, (&mpWS{Note: "msgset:twice:-", Files: []*mpFile{f}}).op())
+	return ops
+}
+
 func mpGen(r *Rand, tier string, dual bool) [][]string {
 	var cases [][]string
 	add := func(op string) { cases = append(cases, []string{op}) }
@@ -1402,6 +1501,12 @@ func mpGen(r *Rand, tier string, dual bool) [][]string {
 	}
 	for _, op := range mpSynthFamily() {
 		add(op)
+	}
+	for i, op := range mpMsgSetFamily() {
+		// the experimental compiler is slow: the dual engine takes every 4th op in the quick tier
+		if !dual || tier == "thorough" || i%4 == 0 {
+			add(op)
+		}
 	}
 	if !dual {
 		for _, op := range mpProtosetOps() {
